@@ -11,6 +11,8 @@ from typing import Any
 
 from .._change import CallArg
 from .._change import Delete
+from .._unmanaged import Unmanaged
+from .._unmanaged import is_unmanaged
 from ..syntax_warnings import InlineSnapshotSyntaxWarning
 from .adapter import Adapter
 from .adapter import Item
@@ -35,6 +37,14 @@ class Argument:
     def __init__(self, value, is_default=False):
         self.value = value
         self.is_default = is_default
+
+
+def is_default_value(default, value):
+    # user controlled values like Is(...) or inner snapshots are never default values
+    # and should not be compared, because this comparison would be recorded by inner snapshots
+    if isinstance(value, Unmanaged) or is_unmanaged(value):
+        return False
+    return default == value
 
 
 class GenericCallAdapter(Adapter):
@@ -256,12 +266,13 @@ class DataclassAdapter(GenericCallAdapter):
                 field_value = getattr(value, field.name)
                 is_default = False
 
-                if field.default != MISSING and field.default == field_value:
+                if field.default != MISSING and is_default_value(
+                    field.default, field_value
+                ):
                     is_default = True
 
-                if (
-                    field.default_factory != MISSING
-                    and field.default_factory() == field_value
+                if field.default_factory != MISSING and is_default_value(
+                    field.default_factory(), field_value
                 ):
                     is_default = True
 
@@ -311,7 +322,7 @@ else:
                             )
                         )
 
-                        if default_value == field_value:
+                        if is_default_value(default_value, field_value):
 
                             is_default = True
 
@@ -366,15 +377,13 @@ else:
                     field_value = getattr(value, name)
                     is_default = False
 
-                    if (
-                        field.default is not PydanticUndefined
-                        and field.default == field_value
+                    if field.default is not PydanticUndefined and is_default_value(
+                        field.default, field_value
                     ):
                         is_default = True
 
-                    if (
-                        field.default_factory is not None
-                        and field.default_factory() == field_value
+                    if field.default_factory is not None and is_default_value(
+                        field.default_factory(), field_value
                     ):
                         is_default = True
 
@@ -420,7 +429,9 @@ class NamedTupleAdapter(GenericCallAdapter):
                 field: Argument(value=getattr(value, field))
                 for field in value._fields
                 if field not in value._field_defaults
-                or getattr(value, field) != value._field_defaults[field]
+                or not is_default_value(
+                    value._field_defaults[field], getattr(value, field)
+                )
             },
         )
 
